@@ -67,6 +67,7 @@ type printCase struct {
 	ID      string   `json:"id"`
 	Src     string   `json:"src"`
 	Faults  bool     `json:"faults,omitempty"` // also enumerate failing writers
+	Only    []int    `json:"only,omitempty"`   // configuration ids to use (default: all)
 }
 
 type rtDiff struct {
@@ -90,6 +91,7 @@ type printObs struct {
 	Err     proj.ErrInfo `json:"err"`
 	Sk      []string     `json:"sk"`
 	NCfg    int          `json:"ncfg"`
+	Want    int          `json:"want"` // configurations requested for this program
 	NSame   int          `json:"nsame"`
 	RT      []rtDiff     `json:"rt"`       // configurations whose re-parsed skeleton is not identical to sk
 	IdemBad []badRec     `json:"idem_bad"` // print(parse(out)) != out
@@ -169,7 +171,15 @@ func runPrint(c printCase, cfgs []cfgRec) (o printObs) {
 	}
 	sk, _ := proj.Commands(cmds)
 	o.Sk = sk.Sk
-	for _, cr := range cfgs {
+	if c.Only != nil {
+		sel := make([]cfgRec, 0, len(c.Only))
+		for _, id := range c.Only {
+			sel = append(sel, cfgs[id])
+		}
+		cfgs = sel
+	}
+	o.Want = len(cfgs)
+	for ci, cr := range cfgs {
 		cfg := cr.config()
 		before := proj.Dump(cmds)
 		var out1 bytes.Buffer
@@ -211,7 +221,7 @@ func runPrint(c printCase, cfgs []cfgRec) (o printObs) {
 		}()
 		o.NCfg++
 		// failing writers
-		if c.Faults && (cr.ID == 0 || cr.ID == len(cfgs)-1) {
+		if c.Faults && (ci == 0 || ci == len(cfgs)-1) {
 			for k := 0; k < out1.Len(); k++ {
 				o.WFTotal++
 				func() {
